@@ -23,6 +23,8 @@ import (
 	"sort"
 	"strings"
 	"sync"
+
+	logger "github.com/multiversx/mx-chain-logger-go"
 )
 
 // Violation is a failure of a property oracle on the implementation's outputs
@@ -71,6 +73,7 @@ type report struct {
 }
 
 func main() {
+	_ = logger.SetLogLevel("*:NONE")
 	if len(os.Args) < 3 {
 		fmt.Fprintln(os.Stderr, "usage: svh gen|run <component> flags")
 		os.Exit(2)
